@@ -40,6 +40,17 @@ Theorem c08_conservation : forall g es x,
   (mass x (fin (run g init es)) + cnt x (outs (run g init es)) = cnt x (send_ids es))%nat.
 Proof. exact c08_conservation_lemma. Qed.
 
+(* End to end: on the hold alphabet, once the link is released and flushed (one
+   tick long enough for what is still in flight, then both hosts take their
+   turn), every message that was ever sent has been handed to its destination
+   exactly once -- whatever holds, releases and manual deliveries came before. *)
+Theorem c08_exactly_once : forall g es dt,
+  Forall c08_event es -> NoDup (send_ids es) ->
+  (let l := fin (run g init es) in
+   forall m, In m (sent l) -> mstat m = OnHold \/ exists t, mstat m = After t /\ t <= lnow l + dt) ->
+  forall x, In x (send_ids es) -> cnt x (outs (run g init (es ++ flush dt))) = 1%nat.
+Proof. exact c08_exactly_once_lemma. Qed.
+
 (* Release: everything held is ready after the next tick (for any tick
    length), per direction in send order, and nothing stays behind. *)
 Theorem c08_release_order : forall g l dt,
@@ -91,6 +102,7 @@ Print Assumptions c08_hold_parks.
 Print Assumptions c08_send_while_held_parks.
 Print Assumptions c08_at_most_once.
 Print Assumptions c08_conservation.
+Print Assumptions c08_exactly_once.
 Print Assumptions c08_release_order.
 Print Assumptions c08_links_view.
 Print Assumptions c08_unheld_links_untouched.
